@@ -199,6 +199,9 @@ def schedule(rng, base=False):
     cfg = {"njob": rng.choice([1, 2, 3, 4, 8]), "resources": rng.choice(RES_CHOICES)}
     if rng.random() < 0.3:
         cfg["use_duration"] = True
+    if rng.random() < 0.3:
+        # hash threads of the director that are slow to start are part of the schedule space
+        cfg["thread_delay"] = {"p": rng.choice([0.3, 1.0]), "max": 0.02, "seed": rng.randrange(1 << 30)}
     return cfg, rng.choice(["free", "jitter", "jitter", "serial", "serial"])
 
 
